@@ -27,12 +27,16 @@ from . import nm as NMG
 NAME = "samplesize"
 RULE = ("nm: test x estimator/bet configs of group nm with finite N <= 60 (quick) / 400 (thorough), pilot "
         "vectors non-constant (and a few constant), shorter than N (and a few = N), alpha on a grid, reps None or "
-        "1..5 with random seed / prefix / quantile; find: real Contest+Assertion objects for POLLING (tally incl. "
-        "zeros, inconsistent totals), CARD_COMPARISON, ONEAUDIT with rate_1/rate_2 on a grid incl. 0, None, 1, >1, "
-        "data given, IRV / missing tally / unknown audit type / margin <= 0 / margin None; interleave: all triples "
-        "of small counts incl. zeros, negatives, equal values; contest/audit_contest: 1-4 assertions, with and "
-        "without MVR sample, proved flags; raire: both branches. non-trivial = status ok and (for estimates) a "
-        "non-constant population or 0 < estimate < N; distinct = distinct canonical input")
+        "1..5 with random seed / prefix / quantile, prefixes that cross on their own; find: real Contest+Assertion "
+        "objects (direct constructors, or Contest.from_dict + make_plurality_assertions + find_margins_from_tally) "
+        "for POLLING (tally incl. zeros, inconsistent totals), CARD_COMPARISON, ONEAUDIT with rate_1/rate_2 on a "
+        "grid incl. 0, None, 1, >1, negative; data given; IRV / missing tally / unknown audit type / margin <= 0 / "
+        "margin None / N = inf / upper bound 0; interleave: triples of small counts incl. zeros, negatives, equal "
+        "values; contest/audit_contest: 1-4 assertions, with and without MVR sample, proved flags; raire: both "
+        "branches. Excluded from the diff (counted as fragile, still seen by the oracle): a float comparison within "
+        "1e-9 of its threshold (history entry vs risk limit, null mean vs 0 or u, total vs N t), int(1/rate) "
+        "differing between float and exact arithmetic, alternative eta within ulps of u. non-trivial = not a "
+        "constant pilot, not a single interleaved value; distinct = distinct canonical input")
 EXHAUSTIVE = {"quick": False, "thorough": False}
 
 S = NMG.S
@@ -280,7 +284,39 @@ def multi_items(case, calls):
     return items
 
 
+def dyadic(v):
+    d = F(v).denominator
+    return d & (d - 1) == 0 and d < 2 ** 40
+
+
+def exact_ok(case):
+    """False when the float population the code builds is the result of inexact float operations (then
+    equalities that hold for the exact values, like a null mean of exactly 0, need not hold in the code)"""
+    op = case["op"]
+    if op == "find":
+        a = case["asn"]
+        if case["data"] is not None or a["audit_type"] == "POLLING":
+            return True
+        return a["margin"] is not None and dyadic(a["margin"]) and a["upper_bound"] in ("1", "2")
+    if op in ("contest", "audit_contest"):
+        c = case["contest"]
+        if c["audit_type"] == "POLLING" or case["mvr"] is not None:
+            return True
+        tl = dict(c["tally"])
+        return all(dyadic(F(tl[w] - tl[l], c["cards"])) for w in c["winners"] for l in c["losers"])
+    if op == "raire":
+        return case["polling"] or (dyadic(case["mean"]) and case["upper_bound"] in ("1", "2"))
+    return True
+
+
 def request(case):
+    g, o, a = request0(case)
+    if o != "interleave":
+        a["exact_ok"] = exact_ok(case)
+    return (g, o, a)
+
+
+def request0(case):
     op = case["op"]
     res, calls = observed(case)
     if op == "nm":
@@ -339,17 +375,53 @@ def rate_fragile(r):
         return True
 
 
+def eta_at_u(init):
+    """the alternative is within a few ulps of u (the default eta = u*(1 - eps) of an explicitly given estimator,
+    or of wald_sprt): the factor (u - eta_j)/(u - mu_j) of an observation below u is then a catastrophic
+    cancellation in floats (relative error up to 50%), and every later history entry inherits it"""
+    test = init.get("test") or "alpha_mart"
+    u = F(init["u_now"] if init.get("u_now") is not None else init["u"])
+    eta = init["kw"].get("eta")
+    if eta is not None:
+        return abs(u - F(eta)) <= F(1, 10 ** 9) * abs(u)
+    return (test == "alpha_mart" and init.get("estim") in ("shrink_trunc", "fixed_alternative_mean")) or test == "wald_sprt"
+
+
+def inits_of(case):
+    op = case["op"]
+    if op == "nm":
+        return [case["init"]]
+    if op == "find":
+        return [case["asn"]["init"]]
+    if op in ("contest", "audit_contest"):
+        return [case["contest"]["init"]]
+    return []
+
+
 def fragile(case, ir, mr):
     """a comparison of the float code sits within 1e-9 (relative) of its threshold: a history entry vs the
     risk limit, a null mean vs 0 or u, the sample total vs N t (computed by the driver on the exact
-    values), or int(1/rate) differs between float and exact arithmetic"""
+    values), int(1/rate) differs between float and exact arithmetic, or the alternative sits at u"""
     if mr.get("near"):
+        return True
+    if any(eta_at_u(i) for i in inits_of(case)):
         return True
     for k in ("rate_1", "rate_2", "erate1", "erate2"):
         if rate_fragile(case.get(k)):
             return True
     if "audit" in case and (rate_fragile(case["audit"]["rate_1"]) or rate_fragile(case["audit"]["rate_2"])):
         return True
+    if case["op"] == "find" and case["data"] is None and case["rate_1"] is None and case["asn"]["margin"] is not None:
+        # default rate_1 = (1 - margin)/2 is computed in floats: e.g. margin 1/3 gives 0.33333333333333337 and
+        # int(1/rate_1) = 2, not 3
+        m = F(case["asn"]["margin"])
+        rf = (1 - float(m)) / 2
+        if rf != 0 and (1 - m) / 2 != 0:
+            try:
+                if int(1 / rf) != math.trunc(1 / ((1 - m) / 2)):
+                    return True
+            except (ZeroDivisionError, OverflowError):
+                return True
     return False
 
 
@@ -402,6 +474,8 @@ def gen_init(rng, N, comparison=False, u=None):
         u = F(17, 16)
     t = F(1, 2)
     kw = NMG.gen_kw(rng, test, estim, bet, u, t)
+    if test == "alpha_mart" and estim in ("shrink_trunc", "fixed_alternative_mean") and "eta" not in kw and rng.chance(0.8):
+        kw["eta"] = rng.choice([t + (u - t) * F(k, 8) for k in range(1, 8)])   # default eta = u(1-eps) is float-fragile
     init = {"test": test, "estim": estim, "bet": bet, "u": S(u), "N": N, "t": S(t), "ro": True,
             "kw": {k: S(v) for k, v in kw.items()}, "u_now": None}
     if rng.chance(0.1) and test in ("alpha_mart", "betting_mart", "kaplan_wald", "kaplan_markov"):
@@ -754,7 +828,9 @@ def oracle_find_pop(asn, ir, r1, r2, N):
         return {"what": "no population reached NonnegMean.sample_size although the estimate succeeded"}
     ub, m = float(F(asn["upper_bound"])), float(F(asn["margin"]))
     if asn["audit_type"] == "POLLING":
-        tl = dict(asn["tally"])
+        tl = dict(asn["tally"] or [])
+        if asn["loser"] not in tl or asn["winner"] not in tl:
+            return None
         n0, nb = tl[asn["loser"]], tl[asn["winner"]]
         nh = N - n0 - nb
         if min(n0, nb, nh) < 0:
